@@ -145,7 +145,7 @@ Qed.
    PrepareSet per set, values of data records are Go values of their elements' kinds). *)
 Theorem C02_oracle_on_model : forall c,
   forallb (fun ds => case_set_ok (set_of (ops_of ds))) (hc_sends c) = true ->
-  C02_holds_on c (hist_model cur c) = true.
+  C02_holds_on_h c (hist_model cur c) = true.
 Proof. exact c02_oracle_on_model. Qed.
 Print Assumptions C02_oracle_on_model.
 
@@ -155,7 +155,7 @@ Definition c02_case : string :=
   "tcp 5 0 full S P T 300 A 1 300 3 7 6 0 2 i16 0 9 13 29305 65535 str - 4 19 0 16 ip nil ; S P D 300 A 1 300 3 7 6 0 2 i16 -2 9 13 29305 65535 str pat 255 3 4 19 0 16 ip hex 0a000001 A 2 300 3 7 6 0 2 i16 513 9 13 29305 65535 str hex 4142 4 19 0 16 ip hex 20010db8000000000000000000000001 ;".
 Example C02_nonvacuous :
   match parse_hcase (tokens c02_case) with
-  | Some c => let m := hist_model cur c in c02_wf c (fst m) && C02_holds_on c m
+  | Some c => let m := hist_model cur c in c02_wf_h c (fst m) && C02_holds_on_h c m
   | None => false
   end = true.
 Proof. vm_compute. reflexivity. Qed.
